@@ -1,1 +1,46 @@
-From CMinx Require Import Base.Str.
+(* Properties/C17.v -- Output is a function of contents, relative paths and settings only.
+   Only theorem statements; proofs are in Proofs/WalkFacts2.v, RunFacts.v, NamingFacts.v.
+   Partial: hash seed, interpreter-global state and the real file system have no counterpart in a
+   pure model (a Gallina function of its arguments depends on nothing else); the harness varies
+   them (repeat, cwd, location, listing order, PYTHONHASHSEED, other inputs in the same run) and
+   byte-compares.  What is proved is where the environment enters the model explicitly. *)
+From Coq Require Import String List Permutation.
+From CMinx Require Import Base.Str Model.Path Model.Naming Model.Pipeline Model.Walk
+     Proofs.WalkFacts Proofs.WalkFacts2 Proofs.RunFacts Proofs.NamingFacts.
+Import ListNotations.
+
+(* a different order of directory listings: the same set of (path, content) pairs *)
+Theorem C17_listing_order_irrelevant :
+  forall st hdrs docfn excl base ch ch', tperm_list ch ch' -> tree_ok ch = true -> all_ok docfn ->
+    Permutation (writes (document st hdrs docfn excl base (KDir ch)))
+                (writes (document st hdrs docfn excl base (KDir ch'))).
+Proof. exact listing_order_irrelevant. Qed.
+Print Assumptions C17_listing_order_irrelevant.
+
+(* moving the tree: the path of a file relative to the input does not depend on the location *)
+Theorem C17_relpath_location_independent :
+  forall bc1 bc2 rel,
+    forallb comp_ok bc1 = true -> forallb comp_ok bc2 = true ->
+    forallb comp_ok rel = true -> rel <> [] ->
+    relpath_abs (abs_of bc1 ++ [slash] ++ join [slash] rel) (abs_of bc1)
+    = relpath_abs (abs_of bc2 ++ [slash] ++ join [slash] rel) (abs_of bc2).
+Proof. exact relpath_location_independent. Qed.
+Print Assumptions C17_relpath_location_independent.
+
+Theorem C17_basename_of_joined_input :
+  forall d n, n <> [] -> ~ In slash n -> d <> [] -> basename (join2 d n) = n.
+Proof. exact basename_join2. Qed.
+Print Assumptions C17_basename_of_joined_input.
+
+(* documenting further inputs before or after in the same run *)
+Theorem C17_per_input_independence :
+  forall pre x post, forallb run_ok (pre ++ [x] ++ post) = true ->
+    writes (run_inputs (pre ++ [x] ++ post))
+    = writes (run_inputs pre) ++ writes (run_inputs [x]) ++ writes (run_inputs post).
+Proof. exact per_input_independence. Qed.
+Print Assumptions C17_per_input_independence.
+
+Theorem C17_run_is_concatenation :
+  forall runs, forallb run_ok runs = true -> run_inputs runs = concat runs.
+Proof. exact run_inputs_concat. Qed.
+Print Assumptions C17_run_is_concatenation.
